@@ -99,3 +99,33 @@ VARIANTS = [
       "        if bin_idx > total_bins:\n            total_bins = bin_idx\n"
       "    return (bin_area", "silent"),
 ]
+
+SK = O + "bin_count_and_last_skyline.py"
+LS = O + "bin_count_and_lowest_skyline.py"
+VARIANTS += [
+    V("skyline-not-the-highest-cover", SK,
+      "            if left <= cur_left < right and top > use_top:",
+      "            if left <= cur_left < right and top < use_top:", "fire",
+      "D2.6"),
+    V("skyline-cover-includes-right-edge", SK,
+      "            if left <= cur_left < right and top > use_top:",
+      "            if left <= cur_left <= right and top > use_top:", "fire",
+      "D2.6", "an item ending exactly at the position would count"),
+    V("skyline-segment-height-of-wrong-width", SK,
+      "        area_under_skyline += (use_right - cur_left) * use_top",
+      "        area_under_skyline += (use_right + cur_left) * use_top",
+      "fire", "D2.6"),
+    V("skyline-other-bins-counted", SK,
+      "            if y[i, IDX_BIN] != use_bin:\n                continue\n",
+      "", "fire", "D2.6"),
+    V("skyline-next-start-ignored", LS,
+      "            use_right = min(use_right, next_left)\n", "", "fire",
+      "D2.6"),
+    V("skyline-width-height-swapped", SK,
+      "            x, self.__bin_width, self.__bin_height)",
+      "            x, self.__bin_height, self.__bin_width)", "fire", "D2.1"),
+    V("silent-skyline-ties-take-the-later-item", SK,
+      "            if cur_left < left < next_left:",
+      "            if cur_left < left <= next_left:", "silent", "",
+      "re-assigning the same value"),
+]
